@@ -50,9 +50,15 @@ def multipitch_pair(draw, max_frames=8, same_timebase=None):
         et = list(rt)
         ef = [draw(derived_frame(f)) if draw(st.integers(0, 4)) else draw(frame()) for f in rf]
     else:
-        m = draw(st.integers(0, max_frames))
-        ehop = draw(st.sampled_from([0.25, 0.125, 0.375, 0.5]))
-        e0 = draw(st.sampled_from([0.0, 0.125, 0.5, 0.25, 1.5]))
+        if n >= 1 and draw(st.integers(0, 3)) == 0:
+            # the same frames, stamped slightly early or late (less than half a hop): frame i is still nearest to frame i, but the
+            # reference time that falls outside the estimate's range must get an empty frame
+            m, ehop = n, hop
+            e0 = t0 + draw(st.sampled_from([0.0625, 0.125] + ([-0.0625, -0.125] if t0 >= 0.25 else [])))
+        else:
+            m = draw(st.integers(0, max_frames))
+            ehop = draw(st.sampled_from([0.25, 0.125, 0.375, 0.5]))
+            e0 = draw(st.sampled_from([0.0, 0.125, 0.5, 0.25, 1.5]))
         et = [e0 + i * ehop for i in range(m)]
         ef = []
         for i in range(m):
